@@ -21,8 +21,8 @@ type fatalErr struct{ msg string }
 type unconErr struct{ why string }
 type nontermErr struct{}
 
-func fatal(f string, a ...any)  { panic(fatalErr{fmt.Sprintf(f, a...)}) }
-func uncon(f string, a ...any)  { panic(unconErr{fmt.Sprintf(f, a...)}) }
+func fatal(f string, a ...any) { panic(fatalErr{fmt.Sprintf(f, a...)}) }
+func uncon(f string, a ...any) { panic(unconErr{fmt.Sprintf(f, a...)}) }
 
 type flow int
 
@@ -70,9 +70,9 @@ type interp struct {
 	depth  int
 	hits   map[string]int64
 
-	tags     []string // cause labels for violation grouping
-	callKinds []byte  // 'f' function, 's' subroutine, 'l' function literal: innermost last
-	loopVars [][]string // names bound by enclosing loop headers, innermost last; nil entries for non-loop blocks
+	tags      []string   // cause labels for violation grouping
+	callKinds []byte     // 'f' function, 's' subroutine, 'l' function literal: innermost last
+	loopVars  [][]string // names bound by enclosing loop headers, innermost last; nil entries for non-loop blocks
 }
 
 const stepBudget = 4000
@@ -147,7 +147,7 @@ func (in *interp) indexRead(base, ix val) val {
 		return vAbsent
 	case kMap:
 		if ix.k == kAbsent {
-			return vAbsent
+			uncon("map read with an absent key")
 		}
 		k, ok := keyOf(ix)
 		if !ok {
